@@ -33,6 +33,7 @@ import (
 	"github.com/ipld/go-storethehash/store"
 	mhprimary "github.com/ipld/go-storethehash/store/primary/multihash"
 	"github.com/ipld/go-storethehash/store/types"
+	"github.com/ipld/go-storethehash/store/verifhook"
 )
 
 func coqBytes(b []byte) string {
@@ -223,6 +224,139 @@ func (r *runner) observe() {
 	r.ops = append(r.ops, fmt.Sprintf("(YX XImage, XImg %s %s %s)", img("i"), img("d"), coqBytes(fr)))
 }
 
+// blockOf returns the primary location the index currently names for key ("" if none / not its own).
+func (r *runner) blockOf(key []byte) string {
+	ik, err := r.s.Primary().IndexKey(key)
+	if err != nil {
+		return ""
+	}
+	blk, found, err := r.s.Index().Get(ik)
+	if err != nil || !found {
+		return ""
+	}
+	k, _, err := r.s.Primary().Get(blk)
+	if err != nil || k == nil {
+		return ""
+	}
+	ik2, err := r.s.Primary().IndexKey(k)
+	if err != nil || string(ik2) != string(ik) {
+		return ""
+	}
+	return fmt.Sprintf("%d:%d", blk.Offset, blk.Size)
+}
+
+type dirState struct {
+	Files   map[string]int64 `json:"files"`
+	Storage int64            `json:"storage"`
+	// Current: primary locations named by the index for the keys of the history
+	Current []string `json:"current"`
+	// FreeFile / FreeGC: entries of the freelist file and of the .gc work file
+	FreeFile []string `json:"free_file"`
+	FreeGC   []string `json:"free_gc"`
+	// Dead / Busy: records of each primary file by their start
+	Busy map[string][]string `json:"busy"`
+	Dead map[string][]string `json:"dead"`
+	// index files referenced by the bucket table
+	IdxRef []int `json:"idx_ref"`
+	PFirst, IFirst int
+}
+
+func readFree(p string) []string {
+	fl, _ := os.ReadFile(p)
+	out := []string{}
+	for q := 0; q+12 <= len(fl); q += 12 {
+		out = append(out, fmt.Sprintf("%d:%d", binary.LittleEndian.Uint64(fl[q:]), binary.LittleEndian.Uint32(fl[q+8:])))
+	}
+	return out
+}
+
+func (r *runner) dirState() dirState {
+	d := dirState{Files: map[string]int64{}, Busy: map[string][]string{}, Dead: map[string][]string{}, Current: []string{}, IdxRef: []int{}}
+	ents, _ := os.ReadDir(r.dir)
+	for _, e := range ents {
+		fi, err := e.Info()
+		if err == nil {
+			d.Files[e.Name()] = fi.Size()
+		}
+	}
+	d.Storage, _ = r.s.StorageSize()
+	for _, k := range r.keys {
+		if b := r.blockOf(k); b != "" {
+			d.Current = append(d.Current, b)
+		}
+	}
+	d.FreeFile = readFree(filepath.Join(r.dir, "i.free"))
+	d.FreeGC = readFree(filepath.Join(r.dir, "i.free.gc"))
+	for n := range fileSizes(r.dir, "d") {
+		data, _ := os.ReadFile(filepath.Join(r.dir, fmt.Sprintf("d.%d", n)))
+		name := strconv.Itoa(n)
+		d.Busy[name], d.Dead[name] = []string{}, []string{}
+		pos := 0
+		for pos+4 <= len(data) {
+			raw := binary.LittleEndian.Uint32(data[pos:])
+			sz := int(raw &^ (1 << 31))
+			ent := fmt.Sprintf("%d:%d", int64(n)*int64(r.h.Cfg.Pmax)+int64(pos), sz)
+			if raw&(1<<31) != 0 {
+				d.Dead[name] = append(d.Dead[name], ent)
+			} else {
+				d.Busy[name] = append(d.Busy[name], ent)
+			}
+			pos += 4 + sz
+		}
+	}
+	seen := map[int]bool{}
+	for _, p := range r.s.Index().VerifBuckets() {
+		if p != 0 {
+			f := int((int64(p) - 4) / int64(r.h.Cfg.Imax))
+			if !seen[f] {
+				seen[f] = true
+				d.IdxRef = append(d.IdxRef, f)
+			}
+		}
+	}
+	sort.Ints(d.IdxRef)
+	return d
+}
+
+// otherSize is a legal file-size limit different from x.
+func otherSize(x uint32) uint32 {
+	if x >= 1<<30 {
+		return x - 1
+	}
+	return x + 1
+}
+
+// budgetCtx is a context whose Err() turns into DeadlineExceeded after n successful polls: a deterministic time limit.
+type budgetCtx struct {
+	context.Context
+	left *int64
+}
+
+func (c budgetCtx) Err() error {
+	if *c.left <= 0 {
+		return context.DeadlineExceeded
+	}
+	*c.left--
+	return nil
+}
+
+func withBudget(n int64) context.Context { return budgetCtx{context.Background(), &n} }
+
+// modelled reports whether every operation of the history exists in the Coq model.
+func modelled(h *hist.History) bool {
+	for _, o := range h.Ops {
+		switch o.Kind {
+		case "pgcb", "igcb":
+			return false
+		case "at":
+			if o.Point != "store.commit.afterIndexFlush" && o.Point != "store.Flush.afterCommit" {
+				return false
+			}
+		}
+	}
+	return true
+}
+
 func hx(b []byte) *string { s := hex.EncodeToString(b); return &s }
 
 func (r *runner) run() (term string, err error) {
@@ -246,17 +380,69 @@ func (r *runner) run() (term string, err error) {
 		}
 	}
 	pendingCrash := int64(-1)
+	var pendingInner []string // Coq terms of inline operations; for the modelled yield points they linearize right after the outer Flush
+	var pendingRecs []rec
+	defer verifhook.Set(nil)
 	for i, o := range h.Ops {
 		jr := rec{Hist: h.Path, I: i, Op: o.Kind, N: o.N}
+		extra := map[string]interface{}{}
 		if o.Key != nil {
 			jr.Key = hex.EncodeToString(o.Key)
 		}
 		s := r.s
 		switch o.Kind {
+		case "at":
+			// install the interference; it fires once, during the next operation
+			inner := o
+			fired := false
+			innerIdx := i
+			verifhook.Set(func(point string) {
+				if point != inner.Point || fired {
+					return
+				}
+				fired = true
+				ir := rec{Hist: h.Path, I: innerIdx, Op: inner.Inner, Key: hex.EncodeToString(inner.Key)}
+				iextra := map[string]interface{}{"at": inner.Point}
+				switch inner.Inner {
+				case "put":
+					b0 := r.blockOf(inner.Key)
+					e := r.s.Put(inner.Key, inner.Val)
+					ir.Val, ir.Res = hx(inner.Val), errClass(e)
+					iextra["blk_before"], iextra["blk_after"] = b0, r.blockOf(inner.Key)
+					pendingInner = append(pendingInner, fmt.Sprintf("(YX (XO (OPut %s %s)), XR %s)", coqBytes(inner.Key), coqBytes(inner.Val), ir.Res))
+				case "remove":
+					b0 := r.blockOf(inner.Key)
+					rm, e := r.s.Remove(inner.Key)
+					ir.Res = errClass(e)
+					c := fmt.Sprintf("RBool %v", rm)
+					if e != nil {
+						c = "RErr"
+					} else {
+						ir.Found = &rm
+					}
+					iextra["blk_before"], iextra["blk_after"] = b0, r.blockOf(inner.Key)
+					pendingInner = append(pendingInner, fmt.Sprintf("(YX (XO (ORemove %s)), XR (%s))", coqBytes(inner.Key), c))
+				case "get":
+					v, f, e := r.s.Get(inner.Key)
+					ir.Res = errClass(e)
+					c := fmt.Sprintf("RVal %v %s", f, coqBytes(v))
+					if e != nil {
+						c = "RErr"
+					} else {
+						ir.Found, ir.Out = &f, hx(v)
+					}
+					pendingInner = append(pendingInner, fmt.Sprintf("(YX (XO (OGet %s)), XR (%s))", coqBytes(inner.Key), c))
+				}
+				ir.Extra = iextra
+				pendingRecs = append(pendingRecs, ir)
+			})
+			continue
 		case "put":
+			b0 := r.blockOf(o.Key)
 			e := s.Put(o.Key, o.Val)
 			jr.Val = hx(o.Val)
 			jr.Res = errClass(e)
+			extra["blk_before"], extra["blk_after"] = b0, r.blockOf(o.Key)
 			r.ops = append(r.ops, fmt.Sprintf("(YX (XO (OPut %s %s)), XR %s)", coqBytes(o.Key), coqBytes(o.Val), jr.Res))
 		case "get":
 			v, f, e := s.Get(o.Key)
@@ -290,7 +476,9 @@ func (r *runner) run() (term string, err error) {
 			}
 			r.ops = append(r.ops, fmt.Sprintf("(YX (XO (OSize %s)), XR (%s))", coqBytes(o.Key), c))
 		case "remove":
+			b0 := r.blockOf(o.Key)
 			rm, e := s.Remove(o.Key)
+			extra["blk_before"], extra["blk_after"] = b0, r.blockOf(o.Key)
 			c := fmt.Sprintf("RBool %v", rm)
 			jr.Res = errClass(e)
 			if e != nil {
@@ -343,26 +531,97 @@ func (r *runner) run() (term string, err error) {
 				os.RemoveAll(crash)
 				// the crash is hypothetical: it is placed before the flush it cuts
 				r.ops = append(r.ops, fmt.Sprintf("(YCrash %s [%s], XR ROk)", nlist(order[:keep]), strings.Join(gets, ";")))
-				jr.Extra = map[string]interface{}{"crash_keep": keep, "crash_of": len(recs), "gets": gl}
+				extra["crash_keep"], extra["crash_of"], extra["gets"] = keep, len(recs), gl
 			}
 			pendingCrash = -1
 			r.ops = append(r.ops, fmt.Sprintf("(YX (XO (OFlush %s)), XR %s)", nlist(order), jr.Res))
+			r.ops = append(r.ops, pendingInner...)
+			pendingInner = nil
 			r.observe()
-		case "reopen":
+			extra["dir"] = r.dirState()
+			extra["pools_empty"] = len(pendingRecs) == 0
+		case "reopen", "missize":
 			before := fileSizes(r.dir, "i")
 			if e := s.Close(); e != nil {
 				return "", fmt.Errorf("op %d: close: %v", i, e)
 			}
+			if e := s.Close(); e != nil {
+				extra["second_close_err"] = e.Error()
+			}
 			order := buckets(appendedRecs(r.dir, before))
-			rescan := o.N != 0
-			if rescan {
+			rescan := o.Kind == "reopen" && o.N != 0
+			if o.Kind == "missize" {
+				// a different index / primary file-size limit must be refused, and refuse without damage
+				_, e1 := store.OpenStore(context.Background(), store.MultihashPrimary, filepath.Join(r.dir, "d"), filepath.Join(r.dir, "i"), r.h.Cfg.Imm,
+					store.IndexBitSize(r.bits), store.IndexFileSize(otherSize(r.h.Cfg.Imax)), store.PrimaryFileSize(r.h.Cfg.Pmax),
+					store.GCInterval(time.Hour), store.SyncInterval(time.Hour))
+				_, isIdx := e1.(types.ErrIndexWrongFileSize)
+				_, e2 := store.OpenStore(context.Background(), store.MultihashPrimary, filepath.Join(r.dir, "d"), filepath.Join(r.dir, "i"), r.h.Cfg.Imm,
+					store.IndexBitSize(r.bits), store.IndexFileSize(r.h.Cfg.Imax), store.PrimaryFileSize(otherSize(r.h.Cfg.Pmax)),
+					store.GCInterval(time.Hour), store.SyncInterval(time.Hour))
+				_, isPri := e2.(types.ErrPrimaryWrongFileSize)
+				nb := uint8(8)
+				if r.bits == 8 {
+					nb = 12
+				}
+				_, e3 := store.OpenStore(context.Background(), store.MultihashPrimary, filepath.Join(r.dir, "d"), filepath.Join(r.dir, "i"), r.h.Cfg.Imm,
+					store.IndexBitSize(nb), store.IndexFileSize(otherSize(r.h.Cfg.Imax)), store.PrimaryFileSize(r.h.Cfg.Pmax),
+					store.GCInterval(time.Hour), store.SyncInterval(time.Hour))
+				extra["both_refused"] = e3 != nil // refused (the specific error arrives wrapped by the translation path)
+				if e3 != nil {
+					extra["both_err"] = e3.Error()
+				}
+				extra["index_size_refused"], extra["primary_size_refused"] = isIdx, isPri
+				if e1 != nil {
+					extra["index_size_err"] = e1.Error()
+				}
+				if e2 != nil {
+					extra["primary_size_err"] = e2.Error()
+				}
+			}
+			// the other recovery path, on a copy
+			alt, _ := os.MkdirTemp("", "alt")
+			if err := exec.Command("cp", "-r", r.dir+"/.", alt).Run(); err != nil {
+				panic(err)
+			}
+			switch {
+			case o.Kind == "reopen" && o.N == 1:
 				os.Remove(filepath.Join(r.dir, "i.buckets"))
+			case o.Kind == "reopen" && o.N >= 2:
+				if st, e := os.Stat(filepath.Join(r.dir, "i.buckets")); e == nil && st.Size() >= 8 {
+					os.Truncate(filepath.Join(r.dir, "i.buckets"), st.Size()-8) // unusable snapshot
+				}
+			default:
+				os.Remove(filepath.Join(alt, "i.buckets"))
 			}
 			ns, e := r.open(r.dir, r.bits)
 			if e != nil {
+				os.RemoveAll(alt)
 				return "", fmt.Errorf("op %d: reopen: %v", i, e)
 			}
 			r.s = ns
+			as, e := r.open(alt, r.bits)
+			if e != nil {
+				extra["paths_agree"], extra["paths_detail"] = false, "other path failed to open: "+e.Error()
+			} else {
+				t1, t2 := ns.Index().VerifBuckets(), as.Index().VerifBuckets()
+				agree, detail := len(t1) == len(t2), ""
+				for b := range t1 {
+					if agree && t1[b] != t2[b] {
+						agree, detail = false, fmt.Sprintf("bucket %d: %d vs %d", b, t1[b], t2[b])
+					}
+				}
+				for _, k := range r.keys {
+					v1, f1, e1 := ns.Get(k)
+					v2, f2, e2 := as.Get(k)
+					if agree && (f1 != f2 || string(v1) != string(v2) || (e1 == nil) != (e2 == nil)) {
+						agree, detail = false, fmt.Sprintf("Get(%x): %v %x %v vs %v %x %v", k, f1, v1, e1, f2, v2, e2)
+					}
+				}
+				extra["paths_agree"], extra["paths_detail"] = agree, detail
+				as.Close()
+			}
+			os.RemoveAll(alt)
 			jr.Res = "ROk"
 			r.ops = append(r.ops, fmt.Sprintf("(YX (XO (OReopen %s %v)), XR ROk)", nlist(order), rescan))
 			r.observe()
@@ -392,11 +651,21 @@ func (r *runner) run() (term string, err error) {
 			jr.Res = errClass(e)
 			r.ops = append(r.ops, fmt.Sprintf("(YX (XO (OIndexGC %v)), XR %s)", o.N != 0, jr.Res))
 			r.observe()
+			extra["dir"] = r.dirState()
 		case "pgc":
 			_, e := s.Primary().(*mhprimary.MultihashPrimary).GC(context.Background(), o.N)
 			jr.Res = errClass(e)
 			r.ops = append(r.ops, fmt.Sprintf("(YX (XO (OPrimaryGC %d)), XR %s)", o.N, jr.Res))
 			r.observe()
+			extra["dir"] = r.dirState()
+		case "pgcb":
+			_, e := s.Primary().(*mhprimary.MultihashPrimary).GC(withBudget(o.B), o.N)
+			jr.Res = errClass(e)
+			extra["dir"] = r.dirState()
+		case "igcb":
+			_, _, e := s.Index().VerifGC(withBudget(o.B), o.N != 0)
+			jr.Res = errClass(e)
+			extra["dir"] = r.dirState()
 		case "iter":
 			// NewIterator flushes first: for the model this is a Flush with the observed bucket order
 			before := fileSizes(r.dir, "i")
@@ -416,14 +685,27 @@ func (r *runner) run() (term string, err error) {
 				}
 				items = append(items, [2]string{hex.EncodeToString(k), hex.EncodeToString(v)})
 			}
-			jr.Extra = items
+			extra["items"] = items
 		default:
 			return "", fmt.Errorf("op %d: unknown kind %s", i, o.Kind)
 		}
+		if len(extra) > 0 {
+			jr.Extra = extra
+		}
+		verifhook.Set(nil)
 		r.enc.Encode(jr)
+		for _, pr := range pendingRecs {
+			r.enc.Encode(pr)
+		}
+		pendingRecs = nil
+		r.ops = append(r.ops, pendingInner...) // an interference that fired inside another kind of operation
+		pendingInner = nil
 	}
 	if e := r.s.Close(); e != nil {
 		return "", fmt.Errorf("final close: %v", e)
+	}
+	if !modelled(h) {
+		return "", nil
 	}
 	return fmt.Sprintf("  mkcase5 %d %d %d %v [\n    %s]", h.Cfg.Bits, h.Cfg.Imax, h.Cfg.Pmax, h.Cfg.Imm, strings.Join(r.ops, ";\n    ")), nil
 }
